@@ -131,6 +131,30 @@ def run(ctx):
                             {"site": "Flatten", "what": f"chain-{how}-roundtrip"}, observed=bad,
                             required={k: w for k, w in want.items() if k in bad})
                 break
+    # two nodes given one and the same type-dictionary *object* (a dict argument is kept as it is): re-typing the later one
+    # by inference must leave the earlier Flatten exactly the flattening of its own input
+    from core import quiet
+    for _ in range(ctx.n(30, 150)):
+        shp = gen.shape(rng, rank=rng.randrange(2, 5), lo=2, hi=5)
+        r = len(shp)
+        a = rng.randrange(0, r - 1); b = rng.randrange(a + 1, r)
+        case = {"op": "flatten_shared_type_dict", "shape": shp, "s": a, "e": b}
+        ctx.case(case); ctx.count("flatten_shared_type_dict")
+        want1 = ref_flatten(shp, a, b)
+        try:
+            f1 = nir.Flatten({"input": np.array(shp)}, a, b)
+            f2 = nir.Flatten(f1.input_type, 0, 0)            # the very same dictionary object
+            g = nir.NIRGraph(nodes={"in": nir.Input(np.array(shp)), "f1": f1, "f2": f2, "out": nir.Output(None)},
+                             edges=[("in", "f1"), ("f1", "f2"), ("f2", "out")])
+            with quiet():
+                g.infer_types()
+            got = (_ints(f1.input_type["input"]), _ints(f1.output_type["output"]))
+        except Exception as e:  # noqa
+            got = f"raised {type(e).__name__}"
+        if got != (shp, want1):
+            ctx.violate(case, "a Flatten that shares its type dictionary object with a later node no longer declares the "
+                        "flattening of its own input after inference", {"site": "Flatten", "what": "shared-type-dict"},
+                        observed=got, required=[shp, want1])
     # state surviving between constructions: a node built earlier from an equal shape (tuple / list / ndarray / the
     # same argument object) has its declared shape edited in place; a Flatten built afterwards from the shape as given
     # must still declare exactly the flattening of what it was given
